@@ -7,3 +7,4 @@ import JaxVerif.Properties.C10
 #print axioms JV.C10_positions
 #print axioms JV.C10_generated_good
 #print axioms JV.C10_source_visitors
+#print axioms JV.C10_source_to_code
